@@ -20,6 +20,7 @@ import (
 	dsModels "github.com/edgexfoundry/device-sdk-go/v4/pkg/models"
 	"github.com/edgexfoundry/device-sdk-go/v4/pkg/interfaces/mocks"
 	"github.com/edgexfoundry/go-mod-core-contracts/v4/clients/logger"
+	contract "github.com/edgexfoundry/go-mod-core-contracts/v4/models"
 	"github.com/stretchr/testify/mock"
 )
 
@@ -173,7 +174,7 @@ func TestVerifC13(t *testing.T) {
 	o := vopen(t)
 	defer o.close()
 	rng := &vrng{s: vseed() ^ 0xC13}
-	rounds := 3
+	rounds := 4
 	perDev := 60
 	if vthorough() {
 		rounds, perDev = 8, 200
@@ -186,7 +187,13 @@ func TestVerifC13(t *testing.T) {
 
 func c13round(t *testing.T, o *vout, rng *vrng, ndev, perDev, round int) {
 	sdk := &mocks.DeviceServiceSDK{}
-	sdk.On("UpdateDeviceOperatingState", mock.Anything, mock.Anything).Return(nil)
+	// in every fourth round EdgeX refuses operating-state updates, and half of the devices start out recorded Down: what
+	// EdgeX knows about the state of a device has no bearing on its readings
+	var sdkErr error
+	if round%4 == 3 {
+		sdkErr = fmt.Errorf("core-metadata unavailable")
+	}
+	sdk.On("UpdateDeviceOperatingState", mock.Anything, mock.Anything).Return(sdkErr)
 	async := make(chan *dsModels.AsyncValues, 4)
 	lc := logger.MockLogger{}
 	d := &Driver{lc: lc, activeDevices: map[string]*LLRPDevice{}, asyncCh: async, svc: sdk}
@@ -268,7 +275,15 @@ func c13round(t *testing.T, o *vout, rng *vrng, ndev, perDev, round int) {
 			}
 		}()
 		_, port, _ := net.SplitHostPort(ln.Addr().String())
-		if _, _, err := d.getDevice(names[i], protocolMap{"tcp": {"host": "127.0.0.1", "port": port}}); err != nil {
+		if round%4 == 3 && i%2 == 1 {
+			addr, err := getAddr(protocolMap{"tcp": {"host": "127.0.0.1", "port": port}})
+			if err != nil {
+				t.Fatal(err)
+			}
+			d.devicesMu.Lock()
+			d.activeDevices[names[i]] = d.NewLLRPDevice(names[i], addr, contract.Down)
+			d.devicesMu.Unlock()
+		} else if _, _, err := d.getDevice(names[i], protocolMap{"tcp": {"host": "127.0.0.1", "port": port}}); err != nil {
 			t.Fatal(err)
 		}
 		// the greeting itself is a reader event on this device's connection
